@@ -9,6 +9,7 @@ import (
 	"log/slog"
 	"net"
 	"os"
+	"strings"
 
 	"github.com/hydraide/hydraide/sdk/go/hydraidego/v3"
 	sdkclient "github.com/hydraide/hydraide/sdk/go/hydraidego/v3/client"
@@ -75,6 +76,20 @@ func miscNewSDK(idleSec, writeSec int64) (*miscSDK, error) {
 	}
 	cl := &miscClient{svc: hydraidepbgo.NewHydraideServiceClient(conn), allIslands: 1000}
 	return &miscSDK{Rig: rig, H: hydraidego.New(cl), srv: srv, conn: conn}, nil
+}
+
+// miscIsTimeout: the error is a deadline / connection problem of the rig, not an answer of the code under test.
+func miscIsTimeout(err error) bool {
+	if err == nil {
+		return false
+	}
+	m := err.Error()
+	for _, w := range []string{"deadline exceeded", "timeout", "timed out", "connection error", "Unavailable", "context canceled"} {
+		if strings.Contains(m, w) {
+			return true
+		}
+	}
+	return false
 }
 
 func (m *miscSDK) Stop() {
